@@ -156,6 +156,16 @@ def oracle_inverse(case, ctx):
             return discs
         if list(a.index) != list(b.index) or not close(a, b, 1e-12):
             discs.append(D("fit_transform_differs:%s" % desc, "fit_transform %s vs fit().transform %s" % (np.asarray(a)[:4], np.asarray(b)[:4])))
+        elif case.get("prefit") is not None:
+            # ... also on an object that was fitted before, on another series
+            t3 = build(spec)
+            other = gen.build_series([9.0 + 2.5 * ((j * 7) % 5) + 0.31 * j for j in range(len(z) + 3)], int(z.index[0]) + case["prefit"], case["index_kind"])
+            if not isinstance(sut(t3.fit, other), Raised):
+                a3 = sut(t3.fit_transform, z.copy())
+                ctx.label("fit_transform_on_fitted_object")
+                if isinstance(a3, Raised) or list(a3.index) != list(b.index) or not close(a3, b, 1e-12):
+                    discs.append(D("fit_transform_differs:%s" % desc, "on an object fitted before on another series: fit_transform %s vs fit().transform %s"
+                                   % (a3 if isinstance(a3, Raised) else np.asarray(a3)[:4], np.asarray(b)[:4])))
     frozen = case.get("update_params") is False and bool(case["updates"]) and hasattr(t, "update") and spec["kind"] != "pipeline_as_transformer"
     before = sut(t.transform, z.copy()) if frozen else None
     u = do_updates(t, z, case, spec)
